@@ -364,3 +364,87 @@ def rename_local(prog: list, scope_stmt: dict, name: str, new: str) -> list:
     if scope_stmt["k"] == "scope":
         res = rename(res, {f"{scope_stmt['n']}.{name}": f"{scope_stmt['n']}.{new}"})
     return res
+
+
+# =============================================================================== C08: spelling independence
+HOSTILE_NAMES = [
+    "a", "x", "y", "s", "b", "w", "l", "A", "X", "Y", "S", "d", "e", "f", "ab", "dead", "beef", "ff", "_", "_1", "__", "a_", "n" * 120, "lab", "lab1", "lab10",
+    "la", "Lab", "LAB", "ldap", "incr", "dbg", "adcx", "stay", "andy", "oral", "bitmap", "brad", "jmptable", "nopnop", "rtsx", "sepia", "replay", "phase",
+    "plan", "secs", "inxs", "text1", "tablex", "asciiz", "includes", "mapper", "dwarf", "dlx", "pointer2", "scope1", "macro1", "if1", "for1", "else1", "iff",
+    "fort", "lda_", "inc_value", "dec1", "rol_a", "tax_", "db_", "dw1", "x1", "a1", "b0", "w2", "l3", "s_", "x_", "y_", "i", "j", "k", "o", "O", "l1", "I",
+    "EOF", "PATCH", "size", "__size", "a__size", "x__size", "Q", "z9", "zz", "ZZ", "Zz", "zZ",
+]
+
+
+def all_spellings(prog: list) -> list[str]:
+    """Every identifier spelled in the program (defined or only mentioned), in order of first appearance; macro names excluded."""
+    seen: dict[str, None] = {}
+
+    def expr(e):
+        for t in e or []:
+            if t[0] == "sym":
+                for part in t[1].split("."):
+                    seen.setdefault(part)
+
+    for st, _, _ in walk(prog):
+        k = st["k"]
+        if k in ("label", "assign", "sym", "splice", "scope"):
+            seen.setdefault(st["n"])
+        if k == "macro":
+            for q in st["ps"]:
+                seen.setdefault(q)
+        if k == "for":
+            seen.setdefault(st["v"])
+            expr(st["a"]), expr(st["b"])
+        if k in ("ins", "org", "reloc", "assign", "sym"):
+            expr(st.get("e"))
+        if k == "if":
+            expr(st["c"])
+        if k == "data":
+            for e in st["es"]:
+                expr(e)
+        if k == "include_ips":
+            expr(st["delta"])
+        if k == "call":
+            for a in st["as"]:
+                if isinstance(a, list):
+                    expr(a)
+    return list(seen)
+
+
+def respell(stmts: list, ren: dict) -> list:
+    """Pure spelling substitution: every occurrence of a spelling (definitions, references, components of qualified
+    references, parameters, loop variables, scope names) is replaced, so the scope structure is untouched."""
+    def expr(e):
+        return [["sym", ".".join(ren.get(part, part) for part in t[1].split("."))] if t[0] == "sym" else t for t in e]
+
+    out = []
+    for st in stmts:
+        st = dict(st)
+        k = st["k"]
+        if k in ("label", "assign", "sym", "splice", "scope"):
+            st["n"] = ren.get(st["n"], st["n"])
+        if k in ("ins", "org", "reloc", "assign", "sym") and st.get("e") is not None:
+            st["e"] = expr(st["e"])
+        if k == "data":
+            st["es"] = [expr(e) for e in st["es"]]
+        elif k == "include_ips":
+            st["delta"] = expr(st["delta"])
+        elif k == "if":
+            st["c"] = expr(st["c"])
+            st["t"] = respell(st["t"], ren)
+            if st.get("e") is not None:
+                st["e"] = respell(st["e"], ren)
+        elif k == "for":
+            st["v"] = ren.get(st["v"], st["v"])
+            st["a"], st["b"] = expr(st["a"]), expr(st["b"])
+            st["body"] = respell(st["body"], ren)
+        elif k == "macro":
+            st["ps"] = [ren.get(q, q) for q in st["ps"]]
+            st["b"] = respell(st["b"], ren)
+        elif k in ("block", "scope", "include"):
+            st["b"] = respell(st["b"], ren)
+        elif k == "call":
+            st["as"] = [({"blk": respell(a["blk"], ren)} if isinstance(a, dict) else expr(a)) for a in st["as"]]
+        out.append(st)
+    return out
